@@ -285,7 +285,9 @@ func outsideSquare(state string, back, data []float64, n, off, ld int, stored fu
 	for k, v := range back {
 		if state != "wrong" && reused && k >= off {
 			i, j := (k-off)/ld, (k-off)%ld
-			if i < n && j < n && stored(i, j) {
+			// an emptied receiver adopts the whole n×n block of its old array: the unreferenced
+			// triangle of that block is the receiver's own and may be initialised.
+			if i < n && j < n && (stored(i, j) || state == "dirty") {
 				continue
 			}
 		}
